@@ -20,6 +20,7 @@ const (
 	KList
 	KListOpt
 	KErr
+	KPlusF // only as helper kind (x+! behind x*!)
 )
 
 type Term struct {
@@ -157,16 +158,20 @@ type PProd struct {
 	Right bool
 	Key   string // "lhsname = a b c" using lox helper-rule naming
 	User  bool
+	URule int // index into G.Rules (-1 for generated helper productions)
+	UAlt  int // index into G.Rules[URule].Prods
 }
 
 // Plain grammar. Symbols: terminals 0..NT-1 (0=EOF,1=ERROR, 2.. tokens),
 // nonterminals NT.. ; nonterminal NT is S'.
 type Plain struct {
-	NT    int // number of terminals
-	Names []string
-	Prods []PProd // Prods[0] = S' -> start
-	ByLHS map[int][]int
-	cache *sets
+	NT      int // number of terminals
+	Names   []string
+	Prods   []PProd // Prods[0] = S' -> start
+	ByLHS   map[int][]int
+	HKind   map[int]Kind // generated helper nonterminal -> kind of sugar it implements
+	G       *G
+	cache   *sets
 	heights []int
 }
 
@@ -175,7 +180,7 @@ func (p *Plain) IsTerm(s int) bool { return s < p.NT }
 // Desugar expands sugar the way the documentation describes it (helper rule
 // names follow lox so productions can be matched by name).
 func Desugar(g *G) *Plain {
-	p := &Plain{ByLHS: map[int][]int{}}
+	p := &Plain{ByLHS: map[int][]int{}, HKind: map[int]Kind{}, G: g}
 	p.Names = append(p.Names, "EOF", "ERROR")
 	idx := map[string]int{"EOF": 0, "ERROR": 1}
 	for _, t := range g.Toks {
@@ -200,7 +205,7 @@ func Desugar(g *G) *Plain {
 		for i, s := range rhs {
 			names[i] = p.Names[s]
 		}
-		pp := PProd{LHS: lhs, RHS: rhs, Prec: prec, Right: right, User: user,
+		pp := PProd{LHS: lhs, RHS: rhs, Prec: prec, Right: right, User: user, URule: -1, UAlt: -1,
 			Key: p.Names[lhs] + " = " + strings.Join(names, " ")}
 		p.ByLHS[lhs] = append(p.ByLHS[lhs], len(p.Prods))
 		p.Prods = append(p.Prods, pp)
@@ -218,6 +223,7 @@ func Desugar(g *G) *Plain {
 		case KOpt:
 			h, fresh := nt(t.Name + "?")
 			if fresh {
+				p.HKind[h] = KOpt
 				add(h, false, 0, false, x)
 				add(h, false, 0, false)
 			}
@@ -225,6 +231,7 @@ func Desugar(g *G) *Plain {
 		case KPlus:
 			h, fresh := nt(t.Name + "+")
 			if fresh {
+				p.HKind[h] = KPlus
 				add(h, false, 0, false, h, x)
 				add(h, false, 0, false, x)
 			}
@@ -232,6 +239,7 @@ func Desugar(g *G) *Plain {
 		case KStar:
 			h, fresh := nt(t.Name + "*")
 			if fresh {
+				p.HKind[h] = KStar
 				plus := helper(Term{Kind: KPlus, Name: t.Name, IsTok: t.IsTok})
 				add(h, false, 0, false, plus)
 				add(h, false, 0, false)
@@ -240,8 +248,10 @@ func Desugar(g *G) *Plain {
 		case KStarF:
 			h, fresh := nt(t.Name + "*!")
 			if fresh {
+				p.HKind[h] = KStarF
 				plus, fp := nt(t.Name + "+!")
 				if fp {
+					p.HKind[plus] = KPlusF
 					add(plus, false, 0, false, plus, x)
 					add(plus, false, 0, false, x)
 				}
@@ -252,6 +262,7 @@ func Desugar(g *G) *Plain {
 		case KList:
 			h, fresh := nt(fmt.Sprintf("@list(%s,%s)", t.Name, t.Sep))
 			if fresh {
+				p.HKind[h] = KList
 				add(h, false, 0, false, h, idx[t.Sep], x)
 				add(h, false, 0, false, x)
 			}
@@ -259,6 +270,7 @@ func Desugar(g *G) *Plain {
 		case KListOpt:
 			h, fresh := nt(fmt.Sprintf("@list(%s,%s)?", t.Name, t.Sep))
 			if fresh {
+				p.HKind[h] = KListOpt
 				l := helper(Term{Kind: KList, Name: t.Name, IsTok: t.IsTok, Sep: t.Sep, SepTk: t.SepTk})
 				add(h, false, 0, false, l)
 				add(h, false, 0, false)
@@ -267,14 +279,16 @@ func Desugar(g *G) *Plain {
 		}
 		panic("kind")
 	}
-	for _, r := range g.Rules {
+	for ri, r := range g.Rules {
 		lhs := idx[r.Name]
-		for _, pr := range r.Prods {
+		for ai, pr := range r.Prods {
 			rhs := make([]int, len(pr.Terms))
 			for i, t := range pr.Terms {
 				rhs[i] = helper(t)
 			}
 			add(lhs, true, pr.Prec, pr.Right, rhs...)
+			p.Prods[len(p.Prods)-1].URule = ri
+			p.Prods[len(p.Prods)-1].UAlt = ai
 		}
 	}
 	return p
